@@ -131,7 +131,10 @@ Definition older (last : N) (es : list (path * centry)) : Prop :=
   forall p e, lookup p es = Some e -> ce_mtime e < last.
 
 Definition hash_ok (cf : cache_file) : Prop :=
-  match cf with CValid _ (Some h) es => forall cfg, chash cfg = h -> entries_ok cfg es | _ => True end.
+  match cf with
+  | CValid v (Some h) es => v = CACHE_VERSION -> forall cfg, chash cfg = h -> entries_ok cfg es
+  | _ => True
+  end.
 
 Record Inv (w : world) (last : N) : Prop := mkInv {
   inv_nodup : NoDup (map fst (w_files w));
@@ -278,7 +281,7 @@ Proof.
   split; [exact Hout|].
   constructor; cbn [w_files w_cfg w_cache raw_entries hash_ok].
   - exact Hnd.
-  - intros cfg' Hc. apply chash_inj in Hc. subst cfg'.
+  - intros _ cfg' Hc. apply chash_inj in Hc. subst cfg'.
     intros p e He. destruct (Hframe p) as [Hsame|(f & l & s & Hin & Hl & Ht & Hlt & Hnew)].
     + rewrite Hsame in He. exact (Hok0 p e He).
     + rewrite Hnew in He. inversion He; subst. exists l. cbn. auto.
@@ -301,7 +304,7 @@ Lemma step_spec : forall w last o, Inv w last -> time_ok last o ->
   (forall r, snd (step truth csize chash w o) = Some r -> fst r = snd r).
 Proof.
   intros w last o HI Ht Hrr Hfg. pose proof HI as [Hnd Hhash Hfresh Holder].
-  destruct o as [p c t|p|p q|c|k|k excl t]; cbn [step fst snd next_last op_time time_ok racy_write] in *.
+  destruct o as [p c t|p|p q|p q|c|k|k excl t]; cbn [step fst snd next_last op_time time_ok racy_write] in *.
   - (* Write *)
     assert (Hnc : collides csize w p c t = false).
     { unfold collides. destruct (lookup p (raw_entries (w_cache w))) as [e|] eqn:El; [|reflexivity].
@@ -337,16 +340,43 @@ Proof.
         -- apply path_eqb_eq in E2. subst r. rewrite lookup_remove_same in Hf. discriminate.
         -- apply path_eqb_neq in E2. rewrite lookup_remove_other in Hf by exact E2. exact (Hfresh r e f He Hf Hm).
     + split; [exact HI|split; [reflexivity|discriminate]].
+  - (* Copy *)
+    unfold racy_rename in Hrr.
+    destruct (lookup p (w_files w)) as [f0|] eqn:Ef0; cbn [fst snd].
+    + split; [|split; [reflexivity|discriminate]].
+      constructor; cbn [w_files w_cfg w_cache]; [now apply NoDup_set|exact Hhash| |exact Holder].
+      intros r e f He Hf Hm. destruct (path_eqb r q) eqn:E.
+      * apply path_eqb_eq in E. subst r. rewrite lookup_set_same in Hf. inversion Hf; subst f.
+        unfold collides in Hrr. rewrite He, Hm in Hrr. cbn in Hrr.
+        apply negb_false_iff in Hrr. now apply N.eqb_eq in Hrr.
+      * apply path_eqb_neq in E. rewrite lookup_set_other in Hf by exact E. exact (Hfresh r e f He Hf Hm).
+    + split; [exact HI|split; [reflexivity|discriminate]].
   - (* SetLanguages *)
     split; [|split; [reflexivity|discriminate]]. constructor; assumption.
   - (* Corrupt *)
     split; [|split; [reflexivity|discriminate]].
-    destruct k as [|v| | |pf sf]; cbn [forgery] in Hfg; try discriminate; cbn [corrupt].
+    assert (Hforeign : forall v h' es', N.eqb v CACHE_VERSION = false -> hash_ok (CValid v h' es')).
+    { intros v h' es' Ev. destruct h' as [h0|]; cbn; [|exact I]. intros Hv. subst v. rewrite N.eqb_refl in Ev. discriminate. }
+    destruct k as [|v| | |pf sf|v pf sf]; cbn [forgery] in Hfg; try discriminate; cbn [corrupt].
     + constructor; cbn; [exact Hnd|exact I| |]; intros q e; try intros f; cbn; discriminate.
-    + destruct (N.eqb v CACHE_VERSION); [constructor; cbn; assumption|].
-      destruct (w_cache w) as [| |v0 h es]; constructor; cbn in *; assumption.
+    + destruct (N.eqb v CACHE_VERSION) eqn:Ev; [constructor; cbn; assumption|].
+      destruct (w_cache w) as [| |v0 h es]; [constructor; cbn in *; assumption|constructor; cbn in *; assumption|].
+      constructor; cbn [w_files w_cfg w_cache raw_entries] in *; [exact Hnd|now apply Hforeign|exact Hfresh|exact Holder].
     + destruct (w_cache w) as [| |v0 h es]; constructor; cbn in *; try assumption; exact I.
     + constructor; cbn; [exact Hnd|exact I| |]; intros q e; try intros f; cbn; discriminate.
+    + destruct (N.eqb v CACHE_VERSION) eqn:Ev; [constructor; cbn; assumption|].
+      destruct (w_cache w) as [| |v0 h es]; [constructor; cbn in *; assumption|constructor; cbn in *; assumption|].
+      cbn [raw_entries] in Hfresh, Holder.
+      destruct (lookup pf es) as [e0|] eqn:Ee.
+      * constructor; cbn [w_files w_cfg w_cache raw_entries]; [exact Hnd|now apply Hforeign| |].
+        -- intros r e f He Hf Hm. destruct (path_eqb r pf) eqn:E.
+           ++ apply path_eqb_eq in E. subst r. rewrite lookup_set_same in He. inversion He; subst e.
+              unfold metadata_matches in Hm. cbn in Hm. cbn. apply (Hfresh pf e0 f Ee Hf). exact Hm.
+           ++ apply path_eqb_neq in E. rewrite lookup_set_other in He by exact E. exact (Hfresh r e f He Hf Hm).
+        -- intros r e He. destruct (path_eqb r pf) eqn:E.
+           ++ apply path_eqb_eq in E. subst r. rewrite lookup_set_same in He. inversion He; subst e. cbn. exact (Holder pf e0 Ee).
+           ++ apply path_eqb_neq in E. rewrite lookup_set_other in He by exact E. exact (Holder r e He).
+      * constructor; cbn [w_files w_cfg w_cache raw_entries]; [exact Hnd|now apply Hforeign|exact Hfresh|exact Holder].
   - (* Run *)
     destruct (run_cached_spec w excl t last HI Ht) as [Heq HI'].
     destruct (run_cached truth csize chash w excl t) as [out w'] eqn:Er. cbn [fst snd] in *.
@@ -420,7 +450,7 @@ Proof.
   destruct (exec_spec h world0 0 Inv_world0 Hm Hrr Hfg) as (_ & _ & last' & [Hnd Hhash Hfresh Holder]).
   fold w in Hnd, Hhash, Hfresh, Holder.
   apply load_cache_some in Hl. rewrite Hl in Hhash, Hfresh. cbn in Hhash, Hfresh.
-  destruct (Hhash (w_cfg w) eq_refl p e He) as (l & Hlang & Ht & _). exists l. split; [exact Hlang|].
+  destruct (Hhash eq_refl (w_cfg w) eq_refl p e He) as (l & Hlang & Ht & _). exists l. split; [exact Hlang|].
   rewrite <- (Hfresh p e f He Hf Hmm). exact Ht.
 Qed.
 
@@ -446,10 +476,12 @@ Qed.
 End WithOracles.
 
 Lemma corrupt_unloadable : forall k cf (cur : N),
-  match k with KGarbage | KRemove | KBadHash => True | KVersion v => v <> CACHE_VERSION | KForge _ _ => False end ->
+  match k with KGarbage | KRemove | KBadHash => True | KVersion v | KForeign v _ _ => v <> CACHE_VERSION | KForge _ _ => False end ->
   load_cache (corrupt k cf) cur = None.
 Proof.
-  intros k cf cur H. destruct k as [|v| | |p s]; cbn [corrupt]; try reflexivity; try contradiction.
+  intros k cf cur H. destruct k as [|v| | |p s|v p s]; cbn [corrupt]; try reflexivity; try contradiction.
   - apply N.eqb_neq in H. rewrite H. destruct cf as [| |v0 h es]; try reflexivity. cbn. now rewrite H.
   - destruct cf as [| |v0 h es]; try reflexivity. cbn. now rewrite andb_false_r.
+  - apply N.eqb_neq in H. rewrite H. destruct cf as [| |v0 h es]; try reflexivity.
+    destruct (lookup p es); cbn; now rewrite H.
 Qed.
